@@ -8,10 +8,11 @@ PROP = {
     'checker_vo': 'ta/TaCheck.vo',
     'scenario': 'c15',
     'evals': ['agrees', 'c15_ok', 'c15_complete'],
-    # wedge 1: every history ends with the F15b sequence (second revocation of an already revoked key); switch it on
-    # once known_findings.json carries the F15b entry. late 1: every history ends with the F15a replay (candidate).
-    'extra': {'quick': {'histories': 8, 'ops': 40, 'wedge': 0, 'late': 0},
-              'thorough': {'histories': 96, 'ops': 90, 'wedge': 0, 'late': 0}},
+    # wedge 1 (default): histories whose signer was not re-initialised end with the F15b scenario (fixed in the repaired
+    # tree): a second revocation of an already revoked key must be refused at the proxy and a later key roll of a
+    # child must complete. late 1 (NOT default): every history ends with the replay of candidate F15a, which fails c15_ok.
+    'extra': {'quick': {'histories': 8, 'ops': 40, 'wedge': 1, 'late': 0},
+              'thorough': {'histories': 96, 'ops': 90, 'wedge': 1, 'late': 0}},
     'replay_header': TA_HEADER,
     'replay_footer': "Eval vm_compute in (failing agrees base_index cases).\nEval vm_compute in (failing c15_ok base_index cases).\nEval vm_compute in (failing c15_complete base_index cases).",
     'stats_keys': ['histories', 'ops_per_history', 'wedge', 'late', 'notes'],
@@ -26,7 +27,7 @@ PROP = {
 }
 
 META = {
-    'text': 'Theorems (Coq, closed under the global context; the only assumption about cryptography is the explicit hypothesis SigSound) about a model of the TrustAnchorProxy and TrustAnchorSigner aggregates and of the manager hand-over to TA children: a response is accepted iff it carries the open nonce and the intact signature of the associated signer; the signer processes a request iff it carries the intact signature of its associated proxy (and its content can be carried out); refusals change nothing and accepted commands cannot panic; one open request at a time, closed only by an accepted response with its nonce; for every operation sequence of an environment that replays, re-orders, drops, alters and cross-wires messages (but cannot forge intact signatures, with fresh nonces) the TA manifest/CRL number only increases, strictly with every accepted response / processed request, and every accepted message was made by the other party; every forwarded child request gets exactly one response that is handed over exactly once, provided the request the signer answered is still the current one (otherwise: witness late_request_dropped, candidate F15a). The full statement "an open request can always be completed" is refuted (F15b: second revocation of a revoked key is admitted by the proxy, fails the whole request at the signer, the nonce stays open); the restriction to states without such a revocation is proved. Tied to the code by a correspondence run on two real embedded trust anchors plus a harness-owned re-initialised signer with replayed, stale, re-ordered, cross-wired, wrong-signer and altered messages, several TA children with concurrent requests and key rolls: every stored command of proxy and signers is checked inside Coq against the model and against the executable form of the theorems; delivery counts per child and key and decoded manifest/CRL numbers are checked by the harness.',
+    'text': 'Theorems (Coq, closed under the global context; the only assumption about cryptography is the explicit hypothesis SigSound) about a model of the TrustAnchorProxy and TrustAnchorSigner aggregates and of the manager hand-over to TA children: a response is accepted iff it carries the open nonce and the intact signature of the associated signer; the signer processes a request iff it carries the intact signature of its associated proxy (and its content can be carried out); refusals change nothing and accepted commands cannot panic; one open request at a time, closed only by an accepted response with its nonce; for every operation sequence of an environment that replays, re-orders, drops, alters and cross-wires messages (but cannot forge intact signatures, with fresh nonces) the TA manifest/CRL number only increases, strictly with every accepted response / processed request, and every accepted message was made by the other party; every forwarded child request gets exactly one response that is handed over exactly once, provided the request the signer answered is still the current one (otherwise: witness late_request_dropped, candidate F15a). After the repair of F15b (the proxy admits a revocation only for a key in use; the pinned rule is kept as revoke_admitted_pinned with its wedge as an Example) an open request is always completed by one honest exchange for every history of disciplined operation (the signer sees only the current request of the proxy and its answer goes back before it sees another; each key belongs to one child; any responses may be replayed to the proxy); against an arbitrary environment the statement is refuted (the signer has no memory of nonces: two answers for one nonce, the older one handed back). Tied to the code by a correspondence run on two real embedded trust anchors plus a harness-owned re-initialised signer with replayed, stale, re-ordered, cross-wired, wrong-signer and altered messages, several TA children with concurrent requests and key rolls: every stored command of proxy and signers is checked inside Coq against the model and against the executable form of the theorems (including: the current request of the associated, in-step proxy is always processed); a second revocation of a revoked key is refused and a later key roll completes; delivery counts per child and key and decoded manifest/CRL numbers are checked by the harness.',
     'design_ref': 'DESIGN.md section 5 C15',
     'note': 'Trusted: Coq kernel + vm_compute; harness abstraction (provenance of signed blobs, error classes). Modelled not verified: src/server/taproxy.rs (process/apply, get_signer_request, response_for_child, matching_open_request), src/tasigner/signer.rs (process_signer_request), src/api/ta.rs (objects numbering, add/revoke issued), manager.rs ta_slow_rfc6492_request. Outside: CMS/RSA (SigSound), expiry of signed messages, publication of the TA objects (C10/C11), certificate contents.',
     'technique': 'Coq proof over proxy/signer model (single-step theorems + induction over environment traces) + correspondence of stored commands evaluated in Coq',
